@@ -239,7 +239,7 @@ fn tag_of(sf: &SubFrame) -> usize {
     }
 }
 
-//@ unit props=C01,C09,C02 tier=quick kind=bounded timeout=900 funcs="coding::try_stereo_coding; coding::recombine_stereo_frame; FrameBuf::fill_stereo_with_iter; ChannelAssignment::select_channels" stubs="encode_frame_impl -> some 2-subframe frame of arbitrary sizes, recording its input buffer" bound="2 samples per channel (the mid/side map is per-sample: complete in the sample values, every 8..24-bit width)"
+//@ unit props=C01,C09 tier=quick kind=bounded timeout=900 funcs="coding::try_stereo_coding; coding::recombine_stereo_frame; FrameBuf::fill_stereo_with_iter; ChannelAssignment::select_channels" stubs="encode_frame_impl -> some 2-subframe frame of arbitrary sizes, recording its input buffer" bound="2 samples per channel (the mid/side map is per-sample: complete in the sample values, every 8..24-bit width)"
 #[kani::proof]
 #[kani::unwind(10)]
 #[kani::stub(std::fmt::format, stub_format)]
@@ -474,7 +474,7 @@ fn c01_fixed_lpc_body(bitcount: bool) {
     }
 }
 
-//@ unit props=C01,C02,C07 tier=quick kind=bounded timeout=900 funcs="coding::fixed_lpc; coding::select_order_and_encode_residual" stubs="reset_fixed_lpc_errors -> buffers of the block length; estimate_entropy -> some estimate; rice::find_partitioned_rice_parameter -> some parameters; encode_residual[_with_prc_parameter] -> residual with the given warm-up over the whole block" bound="block 8"
+//@ unit props=C01,C07 tier=quick kind=bounded timeout=900 funcs="coding::fixed_lpc; coding::select_order_and_encode_residual" stubs="reset_fixed_lpc_errors -> buffers of the block length; estimate_entropy -> some estimate; rice::find_partitioned_rice_parameter -> some parameters; encode_residual[_with_prc_parameter] -> residual with the given warm-up over the whole block" bound="block 8"
 #[kani::proof]
 #[kani::unwind(34)]
 #[kani::stub(std::fmt::format, stub_format)]
